@@ -24,7 +24,7 @@ import (
 	nutsCrypto "github.com/nuts-foundation/nuts-node/crypto"
 	"github.com/nuts-foundation/nuts-node/crypto/hash"
 	"github.com/nuts-foundation/nuts-node/events"
-	"github.com/nuts-foundation/nuts-node/network"
+	nutsnet "github.com/nuts-foundation/nuts-node/network"
 	"github.com/nuts-foundation/nuts-node/network/dag"
 	"github.com/nuts-foundation/nuts-node/network/transport"
 	"github.com/nuts-foundation/nuts-node/storage"
@@ -46,22 +46,26 @@ type stubNetwork struct {
 	published []string // summaries of the documents that went out
 }
 
-func (n *stubNetwork) Subscribe(string, dag.ReceiverFn, ...network.SubscriberOption) error { return nil }
-func (n *stubNetwork) Subscribers() []dag.Notifier                                         { return nil }
-func (n *stubNetwork) GetTransactionPayload(hash.SHA256Hash) ([]byte, error)               { return nil, nil }
-func (n *stubNetwork) GetTransaction(hash.SHA256Hash) (dag.Transaction, error)             { return nil, nil }
-func (n *stubNetwork) ListTransactionsInRange(uint32, uint32) ([]dag.Transaction, error)   { return nil, nil }
-func (n *stubNetwork) PeerDiagnostics() map[transport.PeerID]transport.Diagnostics         { return nil }
-func (n *stubNetwork) Reprocess(context.Context, string) (*network.ReprocessReport, error) {
+func (n *stubNetwork) Subscribe(string, dag.ReceiverFn, ...nutsnet.SubscriberOption) error {
+	return nil
+}
+func (n *stubNetwork) Subscribers() []dag.Notifier                             { return nil }
+func (n *stubNetwork) GetTransactionPayload(hash.SHA256Hash) ([]byte, error)   { return nil, nil }
+func (n *stubNetwork) GetTransaction(hash.SHA256Hash) (dag.Transaction, error) { return nil, nil }
+func (n *stubNetwork) ListTransactionsInRange(uint32, uint32) ([]dag.Transaction, error) {
 	return nil, nil
 }
-func (n *stubNetwork) WithPersistency() network.SubscriberOption {
-	return func() dag.NotifierOption { return func(dag.Notifier) {} }
+func (n *stubNetwork) PeerDiagnostics() map[transport.PeerID]transport.Diagnostics { return nil }
+func (n *stubNetwork) Reprocess(context.Context, string) (*nutsnet.ReprocessReport, error) {
+	return nil, nil
 }
-func (n *stubNetwork) DiscoverServices(did.DID)           {}
-func (n *stubNetwork) AddressBook() []transport.Contact  { return nil }
-func (n *stubNetwork) Disabled() bool                     { return false }
-func (n *stubNetwork) CreateTransaction(_ context.Context, spec network.Template) (dag.Transaction, error) {
+func (n *stubNetwork) WithPersistency() nutsnet.SubscriberOption {
+	return func() dag.NotifierOption { return dag.WithRetryDelay(time.Second) }
+}
+func (n *stubNetwork) DiscoverServices(did.DID)         {}
+func (n *stubNetwork) AddressBook() []transport.Contact { return nil }
+func (n *stubNetwork) Disabled() bool                   { return false }
+func (n *stubNetwork) CreateTransaction(_ context.Context, spec nutsnet.Template) (dag.Transaction, error) {
 	var doc did.Document
 	if err := json.Unmarshal(spec.Payload, &doc); err != nil {
 		return nil, err
@@ -72,7 +76,9 @@ func (n *stubNetwork) CreateTransaction(_ context.Context, spec network.Template
 		return nil, err
 	}
 	tx := utx.(dag.Transaction)
-	if err := n.store.Add(doc, didstore.Transaction{Clock: n.clock, PayloadHash: tx.PayloadHash(), Previous: spec.AdditionalPrevs, Ref: tx.Ref(), SigningTime: time.Now()}); err != nil {
+	// an unsigned transaction has no reference yet: give the store a unique one
+	ref := hash.SHA256Sum(append(append([]byte{}, spec.Payload...), byte(n.clock), byte(n.clock>>8)))
+	if err := n.store.Add(doc, didstore.Transaction{Clock: n.clock, PayloadHash: tx.PayloadHash(), Previous: spec.AdditionalPrevs, Ref: ref, SigningTime: time.Now()}); err != nil {
 		return nil, err
 	}
 	var svcs []string
@@ -133,7 +139,7 @@ func (e *moduleEnv) boot() *vdr.Module {
 	m := vdr.NewVDR(e.w.ks, e.net, e.store, e.evMgr, e.se, nil)
 	cfg := core.TestServerConfig(func(c *core.ServerConfig) {
 		c.DIDMethods = e.method
-		c.URL = "https://example.com"
+		c.URL = "https://nuts.nl"
 	})
 	if err := m.Configure(cfg); err != nil {
 		e.t.Fatalf("harness: vdr.Configure: %v", err)
